@@ -46,7 +46,9 @@ def work(item, tier, seed):
     if len(paths) > kmax:
         subsets = [S for S in subsets if len(S) <= 2 or len(S) >= len(paths) - 1]
     subsets = [S for i, S in enumerate(subsets) if i % nchunks == chunk]
-    picks = (0, -1) if tier == "quick" else (0, -1, "alt")
+    # "alt" alternates first/last menu entries along the run, so that the hidden branch of a Cond holds
+    # draws that differ from the visible ones (in the two pure corners they coincide)
+    picks = (0, -1, "alt") if (tier != "quick" or "cond" in pname or "mix" in pname) else (0, -1)
     raised = set()
     for oi, old_args in enumerate(argsl):
         jold = tuple(jnp.asarray(a) for a in old_args)
